@@ -65,6 +65,8 @@ def run_check(prop, tier, seed):
     for f in core.known_findings(prop):
         if f.get("status") == "fixed":
             corpus += [dict(w["input"], kind="fixed-finding") for w in f.get("witnesses", [])]
+    if hasattr(mod, "prepare"):
+        corpus = [mod.prepare(c) for c in corpus]
     cases = corpus + mod.gen(rng, tier)
     for i, c in enumerate(cases):
         c.setdefault("origin", "corpus" if i < len(corpus) else "generated")
@@ -111,6 +113,8 @@ def run_check(prop, tier, seed):
     # listed findings: replay their witnesses on the real code
     for f in open_findings:
         wit = [w["input"] for w in f.get("witnesses", [])]
+        if hasattr(mod, "prepare"):
+            wit = [mod.prepare(w) for w in wit]
         res = core.run_impl(prop, wit, what="oracle") if wit else []
         still = [w for w, r in zip(wit, res) if r.get("oracle")]
         if still or known_hits.get(f["id"]):
